@@ -98,7 +98,40 @@ def shrink(case):
         yield {**case, "mapping": tgt}
 
 
+def check_pair(ctx, case):
+    """independently built pair that the brute-force oracle finds isomorphic
+    (so b is a renamed / re-ordered / re-spelled a) must compare equal"""
+    from vp import iso
+    ma = rc.require_valid(case["a"])
+    mb = rc.require_valid(case["b"])
+    if ma.cls != mb.cls or len(ma.atoms) > 9:
+        raise HarnessError("C01 pair case: same class and n <= 9 required")
+    if not iso.exists(ma, mb):
+        return False
+    cls = ma.cls
+    tag = _tag(case["a"])
+    a, b = rc.build(case["a"]), rc.build(case["b"])
+    for name, x, y in (("a==b", a, b), ("b==a", b, a)):
+        with guard(f"C01/{cls}/pair/{name}/{tag}"):
+            res = (x == y)
+        if res is not True:
+            raise Violation(f"C01/{cls}/pair/{name}-false/{tag}",
+                            f"{name} returned {res!r} although a bijection "
+                            f"preserving everything exists")
+    return True
+
+
+def shrink_pair(case):
+    for cand in rc.shrink_candidates(case["a"]):
+        yield {**case, "a": cand}
+    for cand in rc.shrink_candidates(case["b"]):
+        yield {**case, "b": cand}
+
+
 def check_case(ctx, case):
+    if case.get("via") == "pair":
+        check_pair(ctx, case)
+        return
     r = case["a"]
     cls = r["cls"]
     via = case["via"]
@@ -143,3 +176,26 @@ def run(ctx):
         check_case(ctx, case)
 
     ctx.hyp("c01", S.tapes(900).map(gen), check, n, shrinker=shrink)
+
+    # second source: independent pairs (tiny universe / mutants / ring
+    # families, unspecified parity excluded) that the brute-force oracle
+    # declares isomorphic
+    from vp.props import c02
+
+    def gen_p(data):
+        case = c02.gen_pair(S.Tape(data), sources=(6, 3, 3, 0, 0))
+        case["via"] = "pair"
+        return case
+
+    def check_p(case):
+        ma, mb = rc.model(case["a"]), rc.model(case["b"])
+        if ma.cls != mb.cls or len(ma.atoms) > 9:
+            ctx.exclude("pair-not-comparable")
+            return
+        iso_found = check_pair(ctx, case)
+        ctx.note(case, bool(iso_found) and rc.n_descs(case["a"]) > 0,
+                 ["via:pair", "pair-isomorphic" if iso_found
+                  else "pair-not-isomorphic"])
+
+    ctx.hyp("c01-pairs", S.tapes(1200).map(gen_p), check_p,
+            ctx.scale(3000, 150000), shrinker=shrink_pair)
